@@ -282,10 +282,40 @@ def coq_table(table):
 def coq_observed(obs):
     if obs[0] == 'err':
         return f'(OErr {obs[1]})'
-    _, cnt, before, sc, cc, final, file_ = obs
+    _, cnt, before, sc, cc, final, file_, lines = obs
     return (f'(OOk {cz(cnt)} {coq_table(before)} {coq_pairs(sc)} '
             f'{coq_pairs(cc)} {coq_table(final)} '
-            f'{copt(file_, coq_table)})')
+            f'{copt(file_, coq_table)} {copt(lines, coq_lines)})')
+
+
+TOKENS = {'VOLU': 'KVOLU', 'EQUA': 'KEQUA', 'PLUS': 'KPLUS', 'MINUS': 'KMINUS',
+          'UNION': 'KUNION', 'INTE': 'KINTE', 'FICTIVE': 'KFICTIVE',
+          'ENDV': 'KENDV', 'None': 'KNone'}
+
+
+def volu_lines(text):
+    '''The VOLU lines of a written geometry, as token lists (comment cut off).
+    None when a token is neither a keyword nor an integer.'''
+    import re
+    out = []
+    for line in text.splitlines():
+        if not line.startswith('VOLU'):
+            continue
+        toks = []
+        for word in line.split('//')[0].split():
+            if word in TOKENS:
+                toks.append(TOKENS[word])
+            elif re.fullmatch(r'-?\d+', word):
+                toks.append(int(word))
+            else:
+                return None
+        out.append(toks)
+    return out
+
+
+def coq_lines(lines):
+    return clist(clist(t if isinstance(t, str) else f'(TN {cz(t)})'
+                       for t in line) for line in lines)
 
 
 def coq_case(case, obs):
@@ -431,9 +461,11 @@ def run_impl(case, rng):
     final = canon_table(dic_vol)
     text = write_table(dic_vol, case['skipped'])
     file_ = None
+    lines = None
     if text is not None:
         file_, why = file_table(text)
-    return ('ok', cnt, before, sc, cc, final, file_), dic_vol, text
+        lines = volu_lines(text)
+    return ('ok', cnt, before, sc, cc, final, file_, lines), dic_vol, text
 
 
 def effective_rn(case, obs):
